@@ -239,6 +239,14 @@ template <class S> void ls_cov(vf::Ctx& c, const char* tname) {
     std::string params = vf::JO().str("type", tname).num("design_matrix_scale", jscale).i("estimate_size", p).i("data_size", n).str("solver", solver ? "SVD" : "Cholesky").i("preconditioner", prec).num("kappa_J", kappa).done();
     if (kappa * kappa * eps > 1e-2L) { c.trivial(); continue; }
     if (!(err <= tol)) c.violation("LeastSquares.computeEstimateCovariance", params, vf::JO().num("rel_err", err).num("tol", tol).done());
+    // the covariance is a query on the solved problem: asked again (after a query with another data variance) it is the same matrix,
+    // and the estimate read afterwards is still the one of that problem
+    Mat covOther = ls.computeEstimateCovariance((S)1);
+    Mat cov2 = ls.computeEstimateCovariance(var);
+    long double err1 = (covOther.template cast<long double>() * (long double)var - want).norm() / want.norm();
+    long double err2 = (cov2.template cast<long double>() - want).norm() / want.norm();
+    for (int i = 0; i < p * p; ++i) c.obs((double)cov2(i / p, i % p));
+    if (!(err1 <= tol) || !(err2 <= tol)) c.violation("LeastSquares.computeEstimateCovariance.dependsOnHistory", params, vf::JO().num("rel_err_second_query_other_variance", err1).num("rel_err_third_query", err2).num("tol", tol).done());
     if (c.want_sample()) c.sample(params);
   }
   // large problems on a solver that has solved a larger one before (buffers longer than the data): n1 rows, then n2 < n1 rows, covariance of the second
